@@ -14,7 +14,7 @@
 
    Semantics.  Level 1 (section [Eval]): any commutative ring R, any ring
    homomorphism inj : Qc -> R, any alpha beta : R, any symmetric G.  Level 2
-   (section [Deriv]): R additionally carries three derivations D X, D Y, D Z
+   (section [Deriv]): R additionally carries three derivations D AX, D AY, D AZ
    (additive + Leibniz, killing the constants), phi o a are elements with
    D k (phi o a) = phi (o + e_k) a and P a b are constants; then G is *defined*
    as the double sum and [eval (dk k c) = D k (eval c)]: the formal total
@@ -31,18 +31,18 @@ Local Open Scope nat_scope.
 (* ------------------------------------------------------------------ *)
 (* Orders, axes, keys                                                  *)
 (* ------------------------------------------------------------------ *)
-Inductive axis := X | Y | Z.
-Definition axes : list axis := [X; Y; Z].
+Inductive axis := AX | AY | AZ.
+Definition axes : list axis := [AX; AY; AZ].
 
 Definition order := (nat * nat * nat)%type.
 Definition o0 : order := (0, 0, 0).
 Definition oadd (a b : order) : order :=
   let '(a1, a2, a3) := a in let '(b1, b2, b3) := b in (a1 + b1, a2 + b2, a3 + b3).
 Definition e_ (k : axis) : order :=
-  match k with X => (1, 0, 0) | Y => (0, 1, 0) | Z => (0, 0, 1) end.
+  match k with AX => (1, 0, 0) | AY => (0, 1, 0) | AZ => (0, 0, 1) end.
 Definition osucc (k : axis) (o : order) : order :=
   let '(a1, a2, a3) := o in
-  match k with X => (S a1, a2, a3) | Y => (a1, S a2, a3) | Z => (a1, a2, S a3) end.
+  match k with AX => (S a1, a2, a3) | AY => (a1, S a2, a3) | AZ => (a1, a2, S a3) end.
 
 Definition oeqb (a b : order) : bool :=
   let '(a1, a2, a3) := a in let '(b1, b2, b3) := b in
@@ -118,7 +118,7 @@ Definition dkq (k : axis) (l : qcomb) : qcomb :=
 Fixpoint iterq (n : nat) (k : axis) (l : qcomb) : qcomb :=
   match n with O => l | S m => dkq k (iterq m k l) end.
 Definition dordq (L : order) (l : qcomb) : qcomb :=
-  let '(lx, ly, lz) := L in iterq lx X (iterq ly Y (iterq lz Z l)).
+  let '(lx, ly, lz) := L in iterq lx AX (iterq ly AY (iterq lz AZ l)).
 
 (* merging equal symbols *)
 Fixpoint add_term (c : coef) (k : key) (l : comb) : comb :=
@@ -365,3 +365,36 @@ Qed.
 Theorem eval_dk_phi k l : eval K inj alpha beta Gphi (dk k l) = D k (eval K inj alpha beta Gphi l).
 Proof. apply eval_dk. apply Gphi_deriv. Qed.
 End Deriv.
+
+(* ------------------------------------------------------------------ *)
+(* The hypotheses of level 2, packaged (used to state Props/C15.v)     *)
+(* ------------------------------------------------------------------ *)
+Record dmodel {R : Type} (K : Fops R) := mkdmodel {
+  m_inj : Qc -> R;                 (* the rationals inside the ring *)
+  m_alpha : R; m_beta : R;         (* the two parameters *)
+  m_D : axis -> R -> R;            (* d/dx, d/dy, d/dz *)
+  m_nb : nat;                      (* number of basis functions *)
+  m_P : nat -> nat -> R;           (* density matrix *)
+  m_phi : order -> nat -> R        (* phi o a = d^o phi_a *)
+}.
+Arguments m_inj {R K}. Arguments m_alpha {R K}. Arguments m_beta {R K}. Arguments m_D {R K}.
+Arguments m_nb {R K}. Arguments m_P {R K}. Arguments m_phi {R K}.
+
+Record dmodel_ok {R : Type} (K : Fops R) (M : dmodel K) : Prop := mkdmodel_ok {
+  ok_inj : is_qhom K (m_inj M);
+  ok_add : forall k x y, m_D M k (fadd K x y) = fadd K (m_D M k x) (m_D M k y);
+  ok_mul : forall k x y, m_D M k (fmul K x y) = fadd K (fmul K (m_D M k x) y) (fmul K x (m_D M k y));
+  ok_cinj : forall k q, m_D M k (m_inj M q) = f0 K;
+  ok_alpha : forall k, m_D M k (m_alpha M) = f0 K;
+  ok_beta : forall k, m_D M k (m_beta M) = f0 K;
+  ok_P : forall k a b, m_D M k (m_P M a b) = f0 K;
+  ok_phi : forall k o a, m_D M k (m_phi M o a) = m_phi M (osucc k o) a;
+  ok_Psym : forall a b, m_P M a b = m_P M b a
+}.
+(* the symbols and the evaluation of a combination in such a model *)
+Definition m_G {R} (K : Fops R) (M : dmodel K) : order -> order -> R :=
+  Gphi K (m_nb M) (m_P M) (m_phi M).
+Definition m_eval {R} (K : Fops R) (M : dmodel K) : comb -> R :=
+  eval K (m_inj M) (m_alpha M) (m_beta M) (m_G K M).
+Definition m_evalq {R} (K : Fops R) (M : dmodel K) : qcomb -> R :=
+  evalq K (m_inj M) (m_G K M).
